@@ -71,6 +71,7 @@ func TestC06(t *testing.T) {
 	p.MinBlocks, p.MaxBlocks = 6, 24
 	p.Inject = true
 	p.MaxVals = 6
+	p.BlockGasBoundary = true
 	runCheck(t, "C06", p, func(src Source, st *Stats) *Outcome {
 		c, err := RunPrimary("C06", src, nil)
 		out := &Outcome{Case: c}
